@@ -31,6 +31,15 @@ if TYPE_CHECKING:
 
 logger = get_logger(__name__)
 
+
+def primitive_type_name(field_type: Any) -> Any:
+    """The name of a field's type for type-keyed checks: a schema may spell a
+    primitive type as 'long' or as {'type': 'long'} (both map to the same Arrow
+    type); every guard keyed on the type name must see through the dict form."""
+    if isinstance(field_type, dict) and isinstance(field_type.get("type"), str):
+        return field_type["type"]
+    return field_type
+
 # Exceptions PyArrow raises when data genuinely does not fit a schema. Anything
 # else is a bug in our conversion code and must not be reported as "incompatible".
 _SCHEMA_MISMATCH_ERRORS = (
@@ -536,15 +545,17 @@ class DataFileManager:
         # out-of-range floats into float32 columns as +-inf, both silently. A value
         # the declared type cannot represent must be rejected, not altered.
         integer_fields = {
-            str(f["name"]) for f in iceberg_schema.fields if f.get("type") in ("int", "long")
+            str(f["name"]) for f in iceberg_schema.fields
+            if primitive_type_name(f.get("type")) in ("int", "long")
         }
         float32_fields = {
-            str(f["name"]) for f in iceberg_schema.fields if f.get("type") == "float"
+            str(f["name"]) for f in iceberg_schema.fields
+            if primitive_type_name(f.get("type")) == "float"
         }
         temporal_fields = {
-            str(f["name"]): str(f.get("type"))
+            str(f["name"]): str(primitive_type_name(f.get("type")))
             for f in iceberg_schema.fields
-            if f.get("type") in ("date", "timestamp", "time")
+            if primitive_type_name(f.get("type")) in ("date", "timestamp", "time")
         }
         # Smallest magnitude that rounds to infinity as a 32-bit float (half-way
         # between FLT_MAX and 2**128; the tie rounds to even, i.e. up).
@@ -583,10 +594,10 @@ class DataFileManager:
             for name, kind in temporal_fields.items():
                 value = record.get(name)
                 problem = None
-                if isinstance(value, float):
+                if isinstance(value, (float, decimal.Decimal)):
                     # pyarrow truncates the fraction and reads the rest as
                     # days / microseconds since the epoch
-                    problem = "a float is not a point in time the column can hold exactly"
+                    problem = "a float / Decimal is not a point in time the column can hold exactly"
                 elif kind == "date" and isinstance(value, datetime.datetime) and (
                     value.time() != datetime.time(0, 0) or value.tzinfo is not None
                 ):
